@@ -2,7 +2,8 @@
 
 proof  : coq/Equiv_Model.v (assemble stages of the deterministic methods over an abstract field),
          coq/Equiv_Spec.v (permutations, orthogonal maps, eigen-oracle contracts, statics allow-list),
-         coq/Equiv_Proof_*.v, coq/Properties_C12.v (38 theorems); connectivity decision: C03's model.
+         coq/Equiv_Proof_*.v, coq/Equiv_Effects.v (how the allow-listed process state can reach a call),
+         coq/Properties_C12.v (51 theorems); connectivity decision: C03's model.
 tie    : (T) translate/t_static.py regenerates the inventory of static-storage objects / rand consumers
              from the current headers (clang AST matchers); it must equal coq/gen/Statics.v, or the
              regenerated table must still satisfy `inventory_ok` (re-checked by coqc);
@@ -10,7 +11,13 @@ tie    : (T) translate/t_static.py regenerates the inventory of static-storage o
              compute_mean / compute_covariance_matrix / project are called directly on dyadic data and
              on its permuted / rotated (exact orthogonal dyadic maps) / translated / scaled image;
              every table must EQUAL the extracted model's (Qc), and the extracted relation checkers
-             (rel_*_b, proved sound) must hold between the implementation's own outputs;
+             (rel_*_b, proved sound) must hold between the implementation's own outputs; centerMatrix itself on
+             arbitrary (non-symmetric) matrices; half of the cases live at a tiny / huge scale 2^b, b in -60..60,
+             and the scales c sweep 2^-60..2^60 (the model over Qc has no absolute thresholds);
+         (A2) the same cases through the embed() BODIES of Isomap / MDS / kernel PCA / PCA as the library text has
+             them (harness/c12_meth.cpp records the geodesic table and the matrix handed to
+             eigendecomposition_via by wrapping those two identifiers inside the method headers): recorded
+             matrices EQUAL the extracted model's, relations between the recordings of a case and its image;
          (A') assembly stream: compute_laplacian, linear_weight_matrix, tangent_weight_matrix called directly
              with explicit neighbour lists on data and on its relabelled image (tolerance 1e-12 / 1e-8); the
              Laplacian against the extracted model fed with the same heat values, the KLLE alignment matrix
@@ -21,8 +28,12 @@ tie    : (T) translate/t_static.py regenerates the inventory of static-storage o
          (N) neighbour stream: tapkee_internal::find_neighbors (brute / vptree / covertree, plain and kernel
              distance, with and without the connectivity doubling) on tie-free data and its permuted image:
              same number of neighbours, neighbour SETS relabelled;
-         (H) history stream: sequences of 2-6 embed calls in one process (other methods, randomized
-             methods, failing calls in between) against fresh-process runs, bitwise, one thread.
+         (H) history stream: sequences of 2-6 embed calls in one process (other methods, every consumer of the
+             random stream, failing calls, logger level changes, calls that read the default_* objects) against
+             fresh-process runs, bitwise, one thread; after EVERY embed call the driver reports the draws of
+             std::rand (it defines rand() itself), the hooked random_shuffle calls, the log messages and the
+             default_* objects: a deterministic call must have drawn nothing (Equiv_Effects.v: then its result
+             is the same from every process state);
 search : when a proof / table / correspondence no longer checks: the three streams at 5x budget.
 """
 import hashlib
@@ -49,13 +60,18 @@ TRUSTED = [
     "IEEE rounding is not modelled: the exact stream uses dyadic inputs on which every operation is exact; the "
     "metamorphic stream compares with a stated tolerance behind a conditioning probe and is a TEST",
     "no_hidden_state: translate/t_static.py (clang-query-14 AST matchers over one TU including every header, vlib's "
-    "flags, plus a textual scan for writes) is trusted to report what the source says (self-test: --selftest); code "
-    "under inactive preprocessor branches (ARPACK, ViennaCL) is not seen; that the allow-listed objects do not "
-    "influence the numbers of the deterministic methods is argued in Equiv_Spec.v and tested bitwise by the "
-    "history stream, not proved",
+    "flags, plus textual scans for writes, for calls of the random wrappers and for uses of the Logging singleton "
+    "other than message_*) is trusted to report what the source says (self-test: --selftest); code under inactive "
+    "preprocessor branches (ARPACK, ViennaCL) is not seen; that the allow-listed objects do not influence the "
+    "numbers of the deterministic methods is reduced by Equiv_Effects.v (a small model: calls as programs over "
+    "draw / shuffle / log) to an observable - no draw on the executed path - which the embed driver reports for "
+    "every call (it defines rand() itself: all consumers listed by T-static go through std::rand or the hooked "
+    "random_shuffle); that the real call IS such a program is the modelling assumption; VP-tree pivots are the one "
+    "place where a deterministic call draws: covered by the bitwise history comparison and C02's theorem",
     "extraction (ExtrOcamlBasic only) + OCaml 4.13.1 + coq/extract/c12_driver.ml (parsing/printing)",
-    "harness/c12.cpp, harness/c12_emb.cpp (parsing, callbacks, printing); the embed driver is built without "
-    "sanitizers (-O1, _GLIBCXX_ASSERTIONS) to fit the time budget, the stage driver with ASan/UBSan",
+    "harness/c12.cpp, harness/c12_emb.cpp, harness/c12_meth.cpp (parsing, callbacks, printing, the two recording "
+    "macros); the embed and method drivers are built without sanitizers (-O1, _GLIBCXX_ASSERTIONS) to fit the time "
+    "budget, the stage driver with ASan/UBSan",
 ]
 
 ASSUMPTIONS = [
@@ -1770,17 +1786,22 @@ def run(ctx):
         samples.append({"stream": "history", "calls": [dict(k, X=k["X"][:2]) for k in history[0]["calls"]]})
     ctx.finish(
         evaluations=n, distinct_nontrivial=len(distinct),
-        rule="evaluations = relation / table comparisons on the exact stream (10 model tables + 4-6 relations per "
-             "case) + assembly comparisons (perm relation of L, D, KLLE and KLTSA matrices, model tables) + "
+        rule="evaluations = relation / table comparisons on the exact stream (12 model tables + 5-7 relations per "
+             "case) + method-body comparisons (4 methods x (status, 2 model tables, 1-2 relations)) + assembly "
+             "comparisons (perm relation of L, D, KLLE and KLTSA matrices, model tables) + "
              "metamorphic pairs + neighbour-set pairs + history comparisons; distinct_nontrivial = distinct cases (hash of the "
              "whole case) whose transformation is not the identity. Exact stream: n in {2,4,8,16}, D <= 4, dyadic "
-             "data (generic, duplicates, collinear, constant column, lattice), transformations perm / exact "
-             "orthogonal dyadic maps / translations up to 2000 / scales 2^k, 3, 5/4, negative. Metamorphic: 12 "
+             "data (generic, duplicates, collinear, constant column, lattice), half of the cases multiplied by 2^b "
+             "(b in -60..60), transformations perm / exact orthogonal dyadic maps / translations up to 2000 / scales "
+             "+-2^e (e in -60..60), 3, 5/4, -3/2; tie-free distance tables for the Isomap body. Metamorphic: 12 "
              "deterministic methods x {perm, rot, trans, rigid motion + perm, scale where the statement claims it}, "
-             "N 14-30, blob / roll / chain+cluster data, brute / vptree / covertree. Assembly: N 5-12, k 2-5, exact "
+             "N 14-30, blob / roll / chain+cluster data, brute / vptree / covertree; 40% of the cases at scale 2^b, "
+             "|b| in 20..40; scales 2^-40..2^40 and 10^-3..10^3 + a fixed sweep of 8 powers of two per scale-equivariant "
+             "method. Assembly: N 5-12, k 2-5, exact "
              "k-NN or arbitrary lists. Neighbour stream: N 8-40, D 1-5, k 2-8, plain / kernel distance, with and "
-             "without connectivity doubling. History: 2-6 calls, deterministic call "
-             "under test after deterministic, randomized and failing calls.",
+             "without connectivity doubling. History: 2-6 calls, deterministic call under test after deterministic, "
+             "randomized (spe, ra, lmds, lisomap, fa, tsne, ms, randomized solver, vptree) and failing calls, logger "
+             "levels switched, em / nm keywords omitted; state probes (draws, shuffles, defaults) on every call.",
         samples=samples,
         histogram={"cases": hist, "stats": stats, "search_phase": searched,
                    "statics_inventory_entries": len(tres.get("entries", []))},
